@@ -13,9 +13,10 @@
 """
 import os, time, json
 from .. import core, build, lean, sim
+from . import c13_device
 
 PROP = "C13"
-MODULES = ["NngModel.Props.C13"]
+MODULES = ["NngModel.Props.C13", "NngModel.Props.C13Device"]
 
 # kind -> (open line, peer proto hex, recv fn, send fn, has pipe-id prefix, is raw responder)
 KINDS = {
@@ -667,6 +668,8 @@ def run(tier, seed, replay=None):
     t0 = time.time()
     v = core.Verdict(PROP, seed)
     rp = json.load(open(replay)) if replay else None   # before the replay directory is cleared
+    if rp and rp.get("sub") == c13_device.SUB:
+        return c13_device.run(tier, seed, replay)
     core.clear_replays(PROP)
     st = lean.prepare(MODULES)
     core.log(PROP, f"lean: {len(st.discharged)}/{len(st.theorems)} theorems re-checked; extract {st.extract_count} constants "
@@ -754,7 +757,16 @@ def run(tier, seed, replay=None):
             v.violation(f"chain-{mm['scenario'].split()[1]}", {"kind": "device chain outcome differs from the specification (BtSpec.expected)", "part": "real",
                         "scenarios": [s for s in scs if scenario_line(s, wait_ms) == mm["scenario"]], **mm})
             found_input = True
+    # the device itself (src/core/device.c): step-for-step UNIT executor + end-to-end SIM executor (vlib/props/c13_device.py)
+    dcounts, dviol = (c13_device.run_part(tier, seed, st, None) if rp is None else ({}, []))
+    for tag, payload, no_input in dviol:
+        if not no_input:
+            v.violation(tag, payload)
+            found_input = True
     if not found_input:
+        for tag, payload, no_input in dviol:
+            if no_input:
+                v.violation(tag, payload, no_input=True)
         if S and S["model"]:
             mm = S["model"][0]
             g = minimise_case(exe, gens[mm["case"]], mm["sched"], fails_with(lambda o: bool(o["model"])))
@@ -773,8 +785,8 @@ def run(tier, seed, replay=None):
                             "harness/simplat.c, mocktran.c, s_proto.c (SIM); harness/r_device.c (REAL, inproc)",
                             "vlib/props/c13.py interpret() (turns traces into function observations)", "gcc ASan/UBSan/LSan"],
            "theorems": st.discharged, "axioms": st.axioms, "broken": st.broken,
-           "evaluations": (S["obs"] if S else 0) + (R["n"] if R else 0),
-           "distinct_nontrivial": (len(S["queries"]) if S else 0) + (len({scenario_line(s, 0) for s in scs}) if R else 0),
+           "evaluations": (S["obs"] if S else 0) + (R["n"] if R else 0) + dcounts.get("unit_cases", 0) + dcounts.get("sim_runs", 0),
+           "distinct_nontrivial": (len(S["queries"]) if S else 0) + (len({scenario_line(s, 0) for s in scs}) if R else 0) + dcounts.get("distinct", 0),
            "rule": "SIM: per case one raw/cooked REP, RESPONDENT, raw REQ or raw SURVEYOR socket, TTL 1..15 (changed mid-case, out-of-range values refused), "
                    f"{per_case} messages from a raw peer: 0..20 hop words (biased to the TTL and capacity boundaries) with/without id, truncated, random bytes, "
                    "word-like payloads; raw replies with valid/short/unknown destination words; cooked replies with and without outstanding request; "
@@ -788,6 +800,7 @@ def run(tier, seed, replay=None):
            "real": None if not R else {"scenarios": R["n"], "fate_histogram": R["fates"], "chain_length_histogram": {str(k): x for k, x in sorted(R["lens"].items())},
                                        "mismatches": len(R["mismatch"]), "crashes": len(R["crashes"]), "wait_ms": wait_ms},
            "samples": ([gens[-1].ops[:12]] if gens else []) + ([scenario_line(scs[0], wait_ms), scenario_line(scs[-1], wait_ms)] if scs else []),
+           "device_part": {k: dcounts[k] for k in dcounts if k != "samples"}, "device_rule": c13_device.RULE,
            "extract_changed": st.extract_changed}
     core.write_evidence(PROP, tier, seed, "proof", cov,
                         ["header processing of one message does not depend on other messages or on scheduling (each callback parses its own nni_msg); SIM runs each case under fixed schedule seeds",
